@@ -246,7 +246,8 @@ fn orders(ctx: &Ctx) {
     if thorough {
         unis.push(Universe::new("U_adv(A_case)", A_CASE, 1, 4, true));
     }
-    let cfgs: Vec<Cfg> = [0, R, I, R | I, D].iter().map(|b| Cfg::new(*b)).collect();
+    // the anchor-free paths (self-check, fallbacks) look at the list itself, so they are part of the slice
+    let cfgs: Vec<Cfg> = [0, R, I, R | I, D, NE, R | NE, R | NA | NE, I | NA | NE, W | R | NE].iter().map(|b| Cfg::new(*b)).collect();
     let execs = AtomicU64::new(0);
     for u in &unis {
         par_for(u.len(), |i| {
@@ -274,7 +275,7 @@ fn orders(ctx: &Ctx) {
                 }
             }
         });
-        ctx.run.space(json!({"engine": "orders: every permutation and every single duplication at every position", "universe": u.name, "sets": u.len(), "settings": "{}, r, i, r+i, d"}));
+        ctx.run.space(json!({"engine": "orders: every permutation and every single duplication at every position", "universe": u.name, "sets": u.len(), "settings": "{}, r, i, r+i, d, ne, r+ne, r+na+ne, i+na+ne, w+r+ne"}));
     }
     ctx.run.set_extra("order_variant_builds", json!(execs.load(Ordering::Relaxed)));
 }
